@@ -32,6 +32,7 @@ VALID = {
     'SI': ['0', '1', '2', '10', '999', '9999'],
     'TN': ['(555)123-4567', '123-4567', '12 (555)123-4567X12', '5551234'],
 }
+SAFE = {'DT': '2020', 'TM': '12', 'DTM': '2020', 'NM': '10', 'SI': '1', 'TN': '5551234'}
 INVALID = {
     'DT': ['20201301', '2020023', 'abcd', '20200230', '2020 ', '20-02'],
     'TM': ['25', '1261', '12000', '12:00', 'noon', '120000.12345'],
@@ -63,10 +64,10 @@ class Gen:
         w = r.choice(WORDS)
         if r.random() < .3:
             w = ''.join(r.choice(string.ascii_letters + string.digits + ' .-_') for _ in range(r.randint(1, 9))).strip() or 'v'
+        w = ''.join(c for c in w if c not in self.delims)
         if escapes and r.random() < .15:
             e = self.ec['ESCAPE']
-            w = w + e + r.choice('FSTRE') + e + r.choice(['', 'z'])
-        w = ''.join(c for c in w if c not in self.delims or c == self.ec['ESCAPE'])
+            w = (w or 'v') + e + r.choice('FSTRE') + e + r.choice(['', 'z'])
         return w or 'v'
 
     def leaf(self, dt, mode='canon'):
@@ -87,7 +88,9 @@ class Gen:
         if dt in VALID:
             self.note('leaf-' + dt)
             v = r.choice(VALID[dt])
-            return ''.join(c for c in v if c not in self.delims)
+            if any(c in self.delims for c in v):
+                v = SAFE[dt]
+            return v
         self.note('leaf-text')
         return self.text_value()
 
